@@ -549,6 +549,8 @@ def _probe_shape(res, entry):
         res.probe("tzname_with_language")
     if meta.get("tzid_with_parameter"):
         res.probe("tzid_property_with_parameter")
+    if meta.get("rules_from_1601"):
+        res.probe("rules_from_1601")
     if any(ob.get("name") is None for ob in d["obs"]):
         res.probe("no_tzname")
     if d["tzid"].startswith("/"):
